@@ -1383,21 +1383,11 @@ class DateTime(datetime.datetime, Date):
             self.tzinfo,
         )
 
-    def __reduce__(
-        self,
-    ) -> tuple[
-        type[Self],
-        tuple[int, int, int, int, int, int, int, datetime.tzinfo | None],
-    ]:
+    def __reduce__(self) -> tuple[Any, ...]:
         return self.__reduce_ex__(2)
 
-    def __reduce_ex__(
-        self, protocol: SupportsIndex
-    ) -> tuple[
-        type[Self],
-        tuple[int, int, int, int, int, int, int, datetime.tzinfo | None],
-    ]:
-        return self.__class__, self._getstate(protocol)
+    def __reduce_ex__(self, protocol: SupportsIndex) -> tuple[Any, ...]:
+        return _unpickle, (self.__class__, self._getstate(protocol), self.fold)
 
     def __deepcopy__(self, _: dict[int, Self]) -> Self:
         return self.__class__(
@@ -1428,6 +1418,14 @@ class DateTime(datetime.datetime, Date):
         )
 
         return 0 if dt == other else 1 if dt > other else -1
+
+
+def _unpickle(
+    cls: type[DateTime],
+    state: tuple[int, int, int, int, int, int, int, datetime.tzinfo | None],
+    fold: int,
+) -> DateTime:
+    return cls(*state, fold=fold)
 
 
 DateTime.min = DateTime(1, 1, 1, 0, 0, tzinfo=UTC)
